@@ -168,7 +168,7 @@ func runC07(r *Run) {
 		trigger string // none cancel deadline close
 		callers int
 	}
-	faults := []string{"dial-error", "dial-blocks", "write-error", "read-eof", "read-reset", "short-frame", "garbage-frame", "close-in-flight", "silence", "silence-after-traffic", "cancel-while-dialing-then-next", "dial-completes-after-close"}
+	faults := []string{"dial-error", "dial-blocks", "write-error", "read-eof", "read-reset", "short-frame", "garbage-frame", "close-in-flight", "silence", "silence-after-traffic", "cancel-while-dialing-then-next", "dial-completes-after-close", "partial-frame-then-silence"}
 	triggers := []string{"none", "cancel", "deadline", "close"}
 	var scens []scen
 	for _, kind := range []string{"pipeline-tcp", "pipeline-udp", "reuse"} {
@@ -182,6 +182,9 @@ func runC07(r *Run) {
 				}
 				if f == "dial-completes-after-close" && tr != "close" {
 					continue // the dialer ignores its context: only Close followed by the dial's own completion ends it
+				}
+				if f == "partial-frame-then-silence" && kind == "pipeline-udp" {
+					continue // datagrams have no frames to cut
 				}
 				for _, n := range []int{1, 3} {
 					scens = append(scens, scen{kind, f, tr, n})
@@ -209,6 +212,12 @@ func runC07(r *Run) {
 		dialIgnoresCtx := sc.fault == "dial-completes-after-close" // a handshake that wins the race against the cancellation
 		nWrites := 0
 		answered := 0
+		// partial-frame-then-silence: how much of the reply frame arrives (the 2-byte length header alone, the header and a part
+		// of the body, everything but the last byte), and whether the first query on the connection is answered completely before
+		partialCut := r.Rng.Intn(3)
+		partialAfterTraffic := sc.fault == "partial-frame-then-silence" && sc.callers > 1 && r.Rng.Intn(3) == 0
+		partialSent := map[*fakeConn]bool{}
+		var cleared []string // read deadlines cleared (zero time) while a query was written and unanswered: diagnostic only
 		onWrite := func(c *fakeConn, w []byte) error {
 			q := c.payloadOf(w)
 			if len(q) < 12 {
@@ -247,6 +256,32 @@ func runC07(r *Run) {
 					c.feedErr(io.EOF)
 				}
 			case "silence":
+			case "partial-frame-then-silence":
+				mu.Lock()
+				full := partialAfterTraffic && answered == 0
+				if full {
+					answered++
+				}
+				mu.Unlock()
+				if full {
+					c.feed(reply)
+					break
+				}
+				mu.Lock()
+				again := partialSent[c]
+				partialSent[c] = true
+				mu.Unlock()
+				if again {
+					break // silence: more bytes would complete the frame that was cut short
+				}
+				n := 2
+				switch partialCut {
+				case 1:
+					n = 2 + 1 + (len(reply)-3)/2
+				case 2:
+					n = len(reply) - 1
+				}
+				c.feed(reply[:n])
 			case "silence-after-traffic":
 				mu.Lock()
 				first := answered == 0
@@ -261,6 +296,21 @@ func runC07(r *Run) {
 				c.feed(reply)
 			}
 			return nil
+		}
+		onClear := func(c *fakeConn, call string) {
+			c.mu.Lock()
+			nq := 0
+			for _, w := range c.writes {
+				if len(c.payloadOf(w)) >= 12 {
+					nq++
+				}
+			}
+			c.mu.Unlock()
+			mu.Lock()
+			if nq > 0 && len(cleared) < 8 {
+				cleared = append(cleared, fmt.Sprintf("connection %d: %s(zero time) after %d queries were written", c.id, call, nq))
+			}
+			mu.Unlock()
 		}
 		dial := func(ctx context.Context) (*fakeConn, error) {
 			if sc.fault == "dial-error" {
@@ -295,7 +345,7 @@ func runC07(r *Run) {
 				if err != nil {
 					return nil, err
 				}
-				return c, nil
+				return &dlwatch07{fakeConn: c, onClear: onClear}, nil
 			}})
 			ex, closeT = t.ExchangeContext, func() { t.Close() }
 		} else {
@@ -304,7 +354,7 @@ func runC07(r *Run) {
 				if err != nil {
 					return nil, err
 				}
-				return transport.NewDnsConn(transport.TraditionalDnsConnOpts{WithLengthHeader: stream, IdleTimeout: idleTimeout, MaxConcurrentQuery: 16}, c), nil
+				return transport.NewDnsConn(transport.TraditionalDnsConnOpts{WithLengthHeader: stream, IdleTimeout: idleTimeout, MaxConcurrentQuery: 16}, &dlwatch07{fakeConn: c, onClear: onClear}), nil
 			}})
 			ex, closeT = t.ExchangeContext, func() { t.Close() }
 		}
@@ -371,6 +421,15 @@ func runC07(r *Run) {
 			r.Count("timing-bound-widened:machine-stalled")
 		}
 		desc := map[string]any{"transport": sc.kind, "fault": sc.fault, "trigger": sc.trigger, "callers": sc.callers, "deadline_scale": scale07}
+		if sc.fault == "partial-frame-then-silence" {
+			desc["reply_bytes_delivered"] = []string{"the 2-byte length header only", "the length header and half of the body", "all but the last byte"}[partialCut]
+			desc["first_query_answered_completely"] = partialAfterTraffic
+			mu.Lock()
+			if len(cleared) > 0 {
+				desc["read_deadline_cleared_with_queries_outstanding"] = append([]string(nil), cleared...)
+			}
+			mu.Unlock()
+		}
 		if hung {
 			r.Fail("an exchange did not return", desc)
 		} else {
@@ -381,7 +440,7 @@ func runC07(r *Run) {
 				if rs.took > bound {
 					r.Fail("an exchange returned later than the transport's liveness timeouts / its context allow", desc)
 				}
-				faulty := sc.fault != "silence-after-traffic" && sc.fault != "cancel-while-dialing-then-next" && sc.fault != "dial-completes-after-close" && !(sc.fault == "write-error" && sc.callers > 1) && sc.fault != "dial-blocks"
+				faulty := sc.fault != "silence-after-traffic" && sc.fault != "cancel-while-dialing-then-next" && sc.fault != "dial-completes-after-close" && !(sc.fault == "write-error" && sc.callers > 1) && sc.fault != "dial-blocks" && !partialAfterTraffic
 				if faulty && rs.ok {
 					r.Fail("an exchange reported success although its connection failed before any reply", desc)
 				}
@@ -605,6 +664,7 @@ func runC07(r *Run) {
 	}
 	runC07Reuse(r)
 	runC07CloseRace(r)
+	runC07DialDuringClose(r)
 	runC07Upstreams(r)
-	r.Finish("part 1: scripted histories (query parks / reply / give up / stray reply) on one TraditionalDnsConn, comparing the kind of read deadline in force with the model after every operation; part 2: transports {pipeline over stream, pipeline over datagram, reuse} x faults {dial error, dial that blocks, write error, EOF, reset, short frame, garbage frame, peer close with queries in flight, silence, silence after traffic, callers cancelled while dialing then the dial succeeds} x {unbounded context, cancel, deadline, transport Close} x {1, 3} callers, with connection deadlines shortened 100x; after each: Close, a later call, open connections, goroutines in transport code; part 3: Close racing with the simultaneous failure of 8..31 connections with queries in flight; part 1b: scripted histories (query parks / reply / reply with the reader's deadline call held up and the next query sent the moment the reply is in / caller gives up / late reply / unexpected data) on one reused connection of a ReuseConnTransport, comparing the kind of read deadline in force with the model (run with the statement order regenerated from reusableConn.readLoop) after every operation; part 1c: the same window end to end with deadlines shortened 100x and a 1000 s idle timeout: 1..3 answered queries, then silence with an unbounded context; part 4: Close called while one caller is inside the transport's critical section (held there by a slow SetReadDeadline on the pooled connection) and 1..3 more calls queue up before or behind Close: Close and all calls return, no call is served on a connection dialed after Close returned, a later call fails at once, every connection dialed is closed, no goroutine is left; part 5: the upstreams built by NewUpstream {udp with its tcp retry, tcp, tcp+pipeline} on loopback sockets with the real timeouts x server behaviour per query {udp: answer, TC (at once / late), silence; tcp: answer, silence, close, half a frame, refused dial} x {unbounded context, cancel placed before the call / when the udp side has the query / when the tcp side has the (retried) query / at a random moment, deadline 30..150 ms, Close of the upstream placed likewise} x 1..5 concurrent calls: a call returns within 1 s of the end of its context and of Close, a failed connection gives an error, afterwards Close returns, a later call fails at once, connections opened = connections closed (EventObserver), no goroutine is left; calls whose phase at the end of the context is known are replayed on the wrapper model (phases and their contexts regenerated from upstream.go); thorough: unbounded context on a silent server returns with an error within 40 s")
+	r.Finish("part 1: scripted histories (query parks / reply / give up / stray reply) on one TraditionalDnsConn, comparing the kind of read deadline in force with the model after every operation; part 2: transports {pipeline over stream, pipeline over datagram, reuse} x faults {dial error, dial that blocks, write error, EOF, reset, short frame, garbage frame, peer close with queries in flight, silence, silence after traffic, callers cancelled while dialing then the dial succeeds, on stream transports a reply frame cut short (length header only / header and half of the body / all but the last byte; optionally after one complete reply) followed by silence} x {unbounded context, cancel, deadline, transport Close} x {1, 3} callers, with connection deadlines shortened 100x; after each: Close, a later call, open connections, goroutines in transport code; part 3: Close racing with the simultaneous failure of 8..31 connections with queries in flight; part 1b: scripted histories (query parks / reply / reply with the reader's deadline call held up and the next query sent the moment the reply is in / caller gives up / late reply / unexpected data) on one reused connection of a ReuseConnTransport, comparing the kind of read deadline in force with the model (run with the statement order regenerated from reusableConn.readLoop) after every operation; part 1c: the same window end to end with deadlines shortened 100x and a 1000 s idle timeout: 1..3 answered queries, then silence with an unbounded context; part 4: Close called while one caller is inside the transport's critical section (held there by a slow SetReadDeadline on the pooled connection) and 1..3 more calls queue up before or behind Close: Close and all calls return, no call is served on a connection dialed after Close returned, a later call fails at once, every connection dialed is closed, no goroutine is left; part 4b: Close held inside the Close() of a pooled connection (slow peer) with the transport's mutex held while the gated dials of 1..3 pending calls (unbounded contexts, some given up first, dialer checking its context or not) return their connections during Close or after it returned: Close and all calls return, on the reuse transport a call pending across Close returns an error, a later call fails at once, every connection dialed is closed, no goroutine is left; part 5: the upstreams built by NewUpstream {udp with its tcp retry, tcp, tcp+pipeline} on loopback sockets with the real timeouts x server behaviour per query {udp: answer, TC (at once / late), silence; tcp: answer, silence, close, half a frame, refused dial} x {unbounded context, cancel placed before the call / when the udp side has the query / when the tcp side has the (retried) query / at a random moment, deadline 30..150 ms, Close of the upstream placed likewise} x 1..5 concurrent calls: a call returns within 1 s of the end of its context and of Close, a failed connection gives an error, afterwards Close returns, a later call fails at once, connections opened = connections closed (EventObserver), no goroutine is left; calls whose phase at the end of the context is known are replayed on the wrapper model (phases and their contexts regenerated from upstream.go); thorough: unbounded context on a silent server returns with an error within 40 s")
 }
